@@ -608,6 +608,8 @@ def run(prop, tier, replay=None):
         probe_zero_width(rep)
     if prop in ("C01", "C02"):
         probe_signed_min(rep, smin_listed)
+        if prop == "C01":
+            probe_negative_enumerator(rep)
 
     rep.cov["rule"] = (
         "schemas from a seeded generator over every type constructor (depth<=3, widths 1..64 with boundary mass, "
@@ -919,6 +921,27 @@ def probe_zero_width(rep):
         else:
             rep.violation(dict(ZERO_WIDTH_WITNESS, kind="work", observed=cls,
                                what="work not bounded by input length"))
+
+
+def probe_negative_enumerator(rep):
+    """recorded finding negative-enumerator on its witness (silent once the value round-trips or the schema is rejected)"""
+    listed = any(f.get("property") == "C01" and f.get("id") == "negative-enumerator" and f.get("status") == "open" for f in load_findings())
+    text = 'version: "3"\nenum E {\n    A = -1,\n    B = 3,\n}\nstruct S {\n    e @ 0: E,\n    t @ 1: u8,\n}\n'
+    e = run_cases("harness.codec", "w_encode", [{"text": text, "struct": "S", "value": {"e": -1, "t": 7}}], timeout_s=30)[0]
+    if "ok" not in e:
+        rep.cov["negative_enumerator_witness"] = "schema rejected or encode raised"
+        return
+    r = run_cases("harness.codec", "w_decode", [{"text": text, "struct": "S", "bytes": e["ok"]}], timeout_s=30)[0]
+    cls, val = canon_impl_result(r)
+    rep.cov["negative_enumerator_witness"] = [e["ok"], cls, val if cls == "value" else None]
+    if not (cls == "value" and val == {"e": -1, "t": 7}):
+        if listed:
+            rep.known_finding("an enum with a negative enumerator is accepted, and a field holding it does not round-trip through the "
+                              "Python codec, which packs enums unsigned (witness: enum E { A = -1, B = 3 } struct S { e @0: E, t @1: u8 }, "
+                              "e = -1 comes back as 3)")
+        else:
+            rep.violation({"kind": "roundtrip", "schema": text, "struct": "S", "value": {"e": -1, "t": 7}, "observed": val,
+                           "what": "decode(encode(v)) != v for an enum field holding a negative enumerator"})
 
 
 def probe_signed_min(rep, listed):
